@@ -193,7 +193,7 @@ class EngineC08(HistEngine):
 
             def dflt(key, salt=salt):
                 return int(hashlib.sha256(f"{salt}:{key}".encode()).hexdigest()[:16], 16)
-            regs = {"Rss_op": a, "Rtt_op": b, "Rs_op": a & 0xFFFFFFFF, "Rt_op": b & 0xFFFFFFFF}
+            regs = {"Rss_op": a, "Rtt_op": b, "Rs_op": a & 0xFFFFFFFF, "Rt_op": b & 0xFFFFFFFF, "pc_op": (salt * 4) & 0xFFFFFFFF}
             out.append((a, b, il.State(regs=regs, default=dflt)))
         return out
 
@@ -212,6 +212,11 @@ class EngineC08(HistEngine):
                 subs[name] = il.parse_def(text)
             except il.Unsupported as e:
                 bad_defs[name] = str(e)
+        for name, text in sorted(defs.items()):
+            head, _, body = text.partition("{")
+            for var, decl in (("pkt", "HexPkt *pkt"), ("hi", "HexInsn *hi")):
+                if re.search(r"\b%s\b" % var, body) and decl not in body and not re.search(r"\b%s\s*[,)]" % var, head):
+                    V.append(Violation("C08", "prologue", "undeclared-" + var, cfg, {"routine": name, "def": text[:400]}))
         registered: list[str] = []
         all_funcs = gen_call.all_funcs(funcs)
         # a routine registered through the public API must get the body its source compiles to, whatever happened
@@ -317,6 +322,11 @@ class EngineC08(HistEngine):
                 out.count("states_executed")
                 if scoped_err is not None:
                     out.count("il_error_scoped")
+                    m_unset = re.search(r"read of unset local (\w+)$", scoped_err)
+                    if m_unset and not conv_done and re.search(r'SETL\("%s", (?:UN)?SIGNED\(\d+, VARL\("ret_val"\)\)\)' % re.escape(m_unset.group(1)), code):
+                        V.append(Violation("C08", "convention", "call-result-read-before-call", cfg,
+                                           {"caller": c["text"], "error": scoped_err, "uses": c["uses"]}, step))
+                        conv_done = True
                     if "ret_val" in scoped_err and not conv_done:
                         V.append(Violation("C08", "convention", "no-return-value", cfg,
                                            {"caller": c["text"], "error": scoped_err, "uses": c["uses"]}, step))
@@ -353,15 +363,20 @@ class EngineC08(HistEngine):
                 # ---- oracle 2: calling convention (scoped vs C)
                 if c.get("stmts") is not None and c.get("convention") and not conv_done:
                     try:
-                        want = self.c_eval(all_funcs, c, a, b, ())
+                        pc = st.reg("pc_op")
+                        want = self.c_eval(all_funcs, c, a, b, (), pc)
                     except Exception as e:  # noqa: BLE001
                         out.count("cref_error")
                         conv_done = True
                         continue
                     out.count("convention_states")
                     bad = None
+                    def observed(run, name):
+                        if name.startswith("@"):
+                            return run["written"].get({"RdV": "Rd_op"}.get(name[1:], name[1:]))
+                        return run["locals"].get(name)
                     for name, t in c["outs"]:
-                        got = scoped["locals"].get(name)
+                        got = observed(scoped, name)
                         w = (t[1], cref.bits(want[name][1], t))
                         if got != w:
                             bad = (name, got, w)
@@ -370,10 +385,10 @@ class EngineC08(HistEngine):
                         expl = "unexplained"
                         for bugs in (("F5a",), ("F5b",), ("F5a", "F5b")):
                             try:
-                                alt = self.c_eval(all_funcs, c, a, b, bugs)
+                                alt = self.c_eval(all_funcs, c, a, b, bugs, pc)
                             except Exception:  # noqa: BLE001
                                 continue
-                            if all(scoped["locals"].get(n) == (t[1], cref.bits(alt[n][1], t)) for n, t in c["outs"]):
+                            if all(observed(scoped, n) == (t[1], cref.bits(alt[n][1], t)) for n, t in c["outs"]):
                                 expl = "+".join(bugs)
                                 break
                         V.append(Violation("C08", "convention", "scoped-vs-C", f"{cfg}:{expl}",
@@ -423,10 +438,12 @@ class EngineC08(HistEngine):
         return self.refs[key]
 
     @staticmethod
-    def c_eval(all_funcs, c, a, b, bugs):
-        ev = cref.CRef(all_funcs, {"RssV": a, "RttV": b}, bugs)
+    def c_eval(all_funcs, c, a, b, bugs, pc=0):
+        ev = cref.CRef(all_funcs, {"RssV": a, "RttV": b, "HEX_REG_ALIAS_PC": pc}, bugs)
         env = {}
         ev.run(c["stmts"], env)
+        for r, tv in ev.reg_writes.items():
+            env["@" + r] = tv
         return env
 
     @staticmethod
